@@ -780,6 +780,7 @@ func TestC10(t *testing.T) {
 		}
 	}
 
+	runFlapSched(t, rep, env)
 	rep.Add(evals, nontrivial, 0, 0)
 	if err := rep.Finish(env); err != nil {
 		t.Fatal(err)
